@@ -162,9 +162,13 @@ Proof.
 Qed.
 
 (* ================================================================ the batch loop *)
+Variable lfix : bool.
 Variable pb : Z.
 Hypothesis Hpb : 1 <= pb.
 Let k := Z.to_nat pb.
+
+Lemma count_nonzero (n : nat) b : (1 <= n)%nat -> b && (Z.of_nat n =? 0) = false.
+Proof. intros H. replace (Z.of_nat n =? 0) with false by (symmetry; apply Z.eqb_neq; lia). apply andb_false_r. Qed.
 
 Lemma chunks_f_nil {A} m kk : @chunks_f A m kk [] = [].
 Proof. destruct m; reflexivity. Qed.
@@ -175,7 +179,7 @@ Proof. destruct l; [contradiction|reflexivity]. Qed.
 Lemma batch_loop_all : forall fuel m bs p total acc,
   0 <= total -> (length bs < fuel)%nat -> (length bs <= m)%nat ->
   at_ fw p (enc_blocks bs) -> p + zlen (enc_blocks bs) = data_end st ->
-  batch_loop fw st fuel (-1) pb p total acc = ROk (acc ++ map enc_blocks (chunks_f m k bs)).
+  batch_loop fw st lfix fuel (-1) pb p total acc = ROk (acc ++ map enc_blocks (chunks_f m k bs)).
 Proof.
   induction fuel as [|fuel IH]; intros m bs p total acc Ht Hf Hm Hat Hend; [lia|].
   destruct bs as [|b bs'] eqn:Ebs.
@@ -193,6 +197,7 @@ Proof.
     rewrite (read_batch_ok pb bs p Hat Hend). fold k.
     destruct m as [|m]; [rewrite Ebs in Hm; cbn in Hm; lia|].
     assert (Hk : (1 <= k)%nat) by (unfold k; lia).
+    rewrite count_nonzero by (rewrite Ebs; destruct k; [lia|cbn; lia]).
     assert (Hsk : (length (skipn k bs) < length bs)%nat).
     { rewrite skipn_length. rewrite Ebs. cbn [length]. lia. }
     rewrite (IH m (skipn k bs)).
@@ -205,7 +210,7 @@ Proof.
 Qed.
 
 Lemma batch_loop_at_end fuel p total acc : p = data_end st -> 0 <= total ->
-  batch_loop fw st fuel (-1) pb p total acc = ROk acc.
+  batch_loop fw st lfix fuel (-1) pb p total acc = ROk acc.
 Proof.
   intros -> Ht. destruct fuel; cbn [batch_loop];
     (replace (total <? -1) with false by (symmetry; apply Z.ltb_ge; lia)); rewrite Z.ltb_irrefl; reflexivity.
@@ -216,7 +221,7 @@ Lemma batch_loop_first N : forall fuel m bs p total acc,
   0 <= total <= N -> (Z.to_nat (N - total) <= length bs)%nat -> (Z.to_nat (N - total) < fuel)%nat ->
   (Z.to_nat (N - total) <= m)%nat ->
   at_ fw p (enc_blocks bs) -> p + zlen (enc_blocks bs) = data_end st ->
-  batch_loop fw st fuel N pb p total acc = ROk (acc ++ map enc_blocks (chunks_f m k (firstn (Z.to_nat (N - total)) bs))).
+  batch_loop fw st lfix fuel N pb p total acc = ROk (acc ++ map enc_blocks (chunks_f m k (firstn (Z.to_nat (N - total)) bs))).
 Proof.
   induction fuel as [|fuel IH]; intros m bs p total acc Ht Hr Hf Hm Hat Hend; [lia|].
   cbn [batch_loop]. destruct (total <? N) eqn:Elt.
@@ -226,7 +231,7 @@ Proof.
     rewrite (read_batch_ok j bs p Hat Hend).
     assert (Hj : (1 <= Z.to_nat j <= Z.to_nat (N - total))%nat) by (unfold j; lia).
     assert (Hlen : length (firstn (Z.to_nat j) bs) = Z.to_nat j) by (apply firstn_length_le; lia).
-    rewrite Hlen.
+    rewrite Hlen. rewrite count_nonzero by lia.
     destruct m as [|m]; [lia|].
     assert (Er : Z.to_nat (N - (total + Z.of_nat (Z.to_nat j))) = (Z.to_nat (N - total) - Z.to_nat j)%nat) by lia.
     rewrite (IH m (skipn (Z.to_nat j) bs)).
@@ -255,22 +260,61 @@ Qed.
 
 (* n_blocks larger than the number of blocks left: the counter stops advancing at the end of the data and the loop
    never ends — out of fuel for EVERY amount of fuel *)
-Lemma batch_loop_beyond N : forall fuel bs p total acc,
+Lemma batch_loop_beyond N : lfix = false -> forall fuel bs p total acc,
   0 <= total -> Z.of_nat (length bs) < N - total ->
   at_ fw p (enc_blocks bs) -> p + zlen (enc_blocks bs) = data_end st ->
-  batch_loop fw st fuel N pb p total acc = ROutOfFuel.
+  batch_loop fw st lfix fuel N pb p total acc = ROutOfFuel.
 Proof.
+  intros Hfix. destruct lfix; [discriminate|]. clear Hfix.
   induction fuel as [|fuel IH]; intros bs p total acc Ht Hr Hat Hend; cbn [batch_loop].
   - replace (total <? N) with true by (symmetry; apply Z.ltb_lt; lia). reflexivity.
   - replace (total <? N) with true by (symmetry; apply Z.ltb_lt; lia). cbn [orb]. cbv iota.
     replace (N =? -1) with false by (symmetry; apply Z.eqb_neq; lia).
     set (j := Z.min (N - total) pb).
-    rewrite (read_batch_ok j bs p Hat Hend).
+    rewrite (read_batch_ok j bs p Hat Hend). cbn [andb].
     apply (IH (skipn (Z.to_nat j) bs)).
     + lia.
     + rewrite skipn_length. rewrite firstn_length. lia.
     + rewrite (enc_blocks_split (Z.to_nat j) bs) in Hat. apply at_suffix in Hat. exact Hat.
     + rewrite (enc_blocks_split (Z.to_nat j) bs), zlen_app in Hend. lia.
+Qed.
+
+(* the repaired loop with n_blocks larger than the number of blocks left: everything that is left, then it stops *)
+Lemma batch_loop_beyond_fixed N : lfix = true -> forall fuel m bs p total acc,
+  0 <= total -> Z.of_nat (length bs) < N - total -> (length bs < fuel)%nat -> (length bs <= m)%nat ->
+  at_ fw p (enc_blocks bs) -> p + zlen (enc_blocks bs) = data_end st ->
+  batch_loop fw st lfix fuel N pb p total acc = ROk (acc ++ map enc_blocks (chunks_f m k bs)).
+Proof.
+  intros Hfix. destruct lfix; [|discriminate]. clear Hfix.
+  induction fuel as [|fuel IH]; intros m bs p total acc Ht Hr Hf Hm Hat Hend; [lia|].
+  cbn [batch_loop]. replace (total <? N) with true by (symmetry; apply Z.ltb_lt; lia). cbn [orb]. cbv iota.
+  replace (N =? -1) with false by (symmetry; apply Z.eqb_neq; lia).
+  set (j := Z.min (N - total) pb).
+  rewrite (read_batch_ok j bs p Hat Hend). cbn [andb].
+  destruct bs as [|b bs'] eqn:Ebs.
+  - rewrite firstn_nil. cbn [length]. change (Z.of_nat 0 =? 0) with true. cbv iota.
+    rewrite chunks_f_nil. cbn. rewrite app_nil_r. reflexivity.
+  - rewrite <- Ebs in *. assert (Hne : bs <> []) by (rewrite Ebs; discriminate).
+    assert (Hjk : Z.to_nat j = Nat.min k (Z.to_nat (N - total))) by (unfold j, k; lia).
+    assert (Hk : (1 <= k)%nat) by (unfold k; lia).
+    assert (Hfk : firstn (Z.to_nat j) bs = firstn k bs).
+    { rewrite Hjk. destruct (Nat.le_ge_cases k (Z.to_nat (N - total))) as [Hle|Hge]; [rewrite Nat.min_l by lia; reflexivity|].
+      rewrite Nat.min_r by lia. rewrite !firstn_all2 by lia. reflexivity. }
+    assert (Hsk : skipn (Z.to_nat j) bs = skipn k bs).
+    { rewrite Hjk. destruct (Nat.le_ge_cases k (Z.to_nat (N - total))) as [Hle|Hge]; [rewrite Nat.min_l by lia; reflexivity|].
+      rewrite Nat.min_r by lia. rewrite !skipn_all2 by lia. reflexivity. }
+    assert (Hc : (1 <= length (firstn (Z.to_nat j) bs))%nat).
+    { rewrite Hfk, Ebs. destruct k; [lia|cbn; lia]. }
+    replace (Z.of_nat (length (firstn (Z.to_nat j) bs)) =? 0) with false by (symmetry; apply Z.eqb_neq; lia).
+    destruct m as [|m]; [rewrite Ebs in Hm; cbn in Hm; lia|].
+    rewrite Hfk. rewrite (IH m (skipn k bs)).
+    + rewrite <- app_assoc. cbn [app]. rewrite (chunks_f_cons m k bs Hne). cbn [map]. reflexivity.
+    + lia.
+    + rewrite skipn_length, firstn_length. pose proof (firstn_length (Z.to_nat j) bs) as FL. rewrite Hfk, firstn_length in FL. lia.
+    + rewrite skipn_length. rewrite Ebs. cbn [length]. rewrite Ebs in Hf. cbn [length] in Hf. lia.
+    + rewrite skipn_length. rewrite Ebs in *. cbn [length] in *. lia.
+    + rewrite (enc_blocks_split k bs) in Hat. apply at_suffix in Hat. exact Hat.
+    + rewrite (enc_blocks_split k bs), zlen_app in Hend. lia.
 Qed.
 End Batches.
 
@@ -478,34 +522,50 @@ Proof.
 Qed.
 
 (* arrays() once the batch loop has produced the batches of consecutive block groups *)
-Lemma arrays_of_groups chk fuel fw nb pb dets sched st (groups : list (list block)) :
+Lemma arrays_of_groups chk lfix fuel fw nb pb dets sched st (groups : list (list block)) :
   preprocess fw = ROk st ->
-  batch_loop fw st fuel nb pb (data_start st) 0 [] = ROk (map enc_blocks groups) ->
+  batch_loop fw st lfix fuel nb pb (data_start st) 0 [] = ROk (map enc_blocks groups) ->
   Forall (Forall wf_block) groups -> groups <> [] ->
   (forall n, Permutation (sched n) (seq 0 n)) ->
-  arrays_gen chk fuel fw nb pb (map Some dets) sched = ROk (columnar (sel_of (eff_dets dets)) (flat_map bk_events (concat groups))).
+  arrays_gen chk lfix fuel fw nb pb (map Some dets) sched = ROk (columnar (sel_of (eff_dets dets)) (flat_map bk_events (concat groups))).
 Proof.
-  intros Hp Hl Hwf Hne Hs. unfold arrays_gen. rewrite Hp, Hl.
+  intros Hp Hl Hwf Hne Hs. unfold arrays_gen, arrays_from, reset_cursor. rewrite Hp, Hl.
+  assert (E : (if lfix && match map enc_blocks groups with [] => true | _ :: _ => false end then [[]] else map enc_blocks groups)
+              = map enc_blocks groups).
+  { destruct groups; [contradiction|]. cbn [map]. rewrite andb_false_r. reflexivity. }
+  cbv zeta. rewrite E.
   rewrite run_pool_perm by apply Hs. rewrite (gather_ok chk dets groups Hwf). apply concatenate_groups. exact Hne.
 Qed.
 
-Lemma arrays_loop_out_of_fuel chk fuel fw nb pb names sched st :
-  preprocess fw = ROk st -> batch_loop fw st fuel nb pb (data_start st) 0 [] = ROutOfFuel ->
-  arrays_gen chk fuel fw nb pb names sched = ROutOfFuel.
-Proof. intros Hp Hl. unfold arrays_gen. rewrite Hp, Hl. reflexivity. Qed.
+Lemma arrays_loop_out_of_fuel chk lfix fuel fw nb pb names sched st :
+  preprocess fw = ROk st -> batch_loop fw st lfix fuel nb pb (data_start st) 0 [] = ROutOfFuel ->
+  arrays_gen chk lfix fuel fw nb pb names sched = ROutOfFuel.
+Proof. intros Hp Hl. unfold arrays_gen, arrays_from, reset_cursor. rewrite Hp, Hl. reflexivity. Qed.
 Lemma run_pool_nil {A B} (task : A -> B) order : run_pool task [] order = [].
 Proof.
   unfold run_pool. cbn [map]. induction order as [|k order IH]; [reflexivity|]. cbn [fold_left].
   destruct k; cbn [nth_error]; exact IH.
 Qed.
+(* no batch at all: the pinned loop ends in ak.concatenate([]) ... *)
 Lemma arrays_no_batches chk fuel fw nb pb names sched st :
-  preprocess fw = ROk st -> batch_loop fw st fuel nb pb (data_start st) 0 [] = ROk [] ->
-  arrays_gen chk fuel fw nb pb names sched = RThrow RConcatEmpty.
-Proof. intros Hp Hl. unfold arrays_gen. rewrite Hp, Hl. rewrite run_pool_nil. reflexivity. Qed.
+  preprocess fw = ROk st -> batch_loop fw st false fuel nb pb (data_start st) 0 [] = ROk [] ->
+  arrays_gen chk false fuel fw nb pb names sched = RThrow RConcatEmpty.
+Proof. intros Hp Hl. unfold arrays_gen, arrays_from, reset_cursor. rewrite Hp, Hl. cbn [andb]. cbv zeta. rewrite run_pool_nil. reflexivity. Qed.
+(* ... the repaired one decodes one empty buffer and returns the empty array *)
+Lemma arrays_no_batches_fixed chk fuel fw nb pb dets sched st :
+  preprocess fw = ROk st -> batch_loop fw st true fuel nb pb (data_start st) 0 [] = ROk [] ->
+  (forall n, Permutation (sched n) (seq 0 n)) ->
+  arrays_gen chk true fuel fw nb pb (map Some dets) sched = ROk (columnar (sel_of (eff_dets dets)) []).
+Proof.
+  intros Hp Hl Hs. unfold arrays_gen, arrays_from, reset_cursor. rewrite Hp, Hl. cbn [andb]. cbv zeta iota.
+  rewrite run_pool_perm by apply Hs. cbn [map gather].
+  pose proof (batch_parse chk dets [] (Forall_nil _)) as E. cbn [enc_blocks flat_map] in E. rewrite E. reflexivity.
+Qed.
 
 Section FileTheorems.
 Variable f : rawfile.
 Hypothesis Hwf : wf_file f.
+Variable lfix : bool.
 Variable pb : Z.
 Hypothesis Hpb : 1 <= pb.
 Variable sched : nat -> list nat.
@@ -519,33 +579,33 @@ Proof. destruct Hwf as (_ & _ & _ & _ & _ & _ & _ & _ & _ & _ & _ & _ & _ & _ & 
 Lemma blocks_at : at_ (enc_file f) (data_start st) (enc_blocks blocks).
 Proof. unfold enc_file. cbn [data_start st]. apply at_in_app. Qed.
 
-(* n_blocks = -1: the whole file, for every batch size and completion order *)
+(* n_blocks = -1: the whole file, for every batch size and completion order (both loop variants) *)
 Theorem arrays_all chk fuel dets : blocks <> [] -> (length blocks < fuel)%nat ->
-  arrays_gen chk fuel (enc_file f) (-1) pb (map Some dets) sched =
+  arrays_gen chk lfix fuel (enc_file f) (-1) pb (map Some dets) sched =
   ROk (columnar (sel_of (eff_dets dets)) (file_events f)).
 Proof.
   intros Hne Hf. pose proof blocks_wf as Hb.
-  rewrite (arrays_of_groups chk fuel (enc_file f) (-1) pb dets sched st (chunks_f (length blocks) (Z.to_nat pb) blocks)).
+  rewrite (arrays_of_groups chk lfix fuel (enc_file f) (-1) pb dets sched st (chunks_f (length blocks) (Z.to_nat pb) blocks)).
   - rewrite concat_chunks_f by lia. reflexivity.
   - apply preprocess_ok. exact Hwf.
-  - rewrite (batch_loop_all (enc_file f) st pb Hpb fuel (length blocks) blocks (data_start st) 0 []);
+  - rewrite (batch_loop_all (enc_file f) st lfix pb Hpb fuel (length blocks) blocks (data_start st) 0 []);
       [reflexivity|lia|exact Hf|lia|apply blocks_at|reflexivity].
   - apply chunks_f_forall. exact Hb.
   - apply chunks_f_nonempty; [exact Hne|lia].
   - exact Hsched.
 Qed.
 
-(* n_blocks = N with 1 <= N <= number of blocks: the events of the first N blocks *)
+(* n_blocks = N with 1 <= N <= number of blocks: the events of the first N blocks (both loop variants) *)
 Theorem arrays_first_n chk fuel dets N : 1 <= N <= Z.of_nat (length blocks) -> (Z.to_nat N < fuel)%nat ->
-  arrays_gen chk fuel (enc_file f) N pb (map Some dets) sched =
+  arrays_gen chk lfix fuel (enc_file f) N pb (map Some dets) sched =
   ROk (columnar (sel_of (eff_dets dets)) (flat_map bk_events (firstn (Z.to_nat N) blocks))).
 Proof.
   intros HN Hf. pose proof blocks_wf as Hb.
-  rewrite (arrays_of_groups chk fuel (enc_file f) N pb dets sched st
+  rewrite (arrays_of_groups chk lfix fuel (enc_file f) N pb dets sched st
              (chunks_f (Z.to_nat N) (Z.to_nat pb) (firstn (Z.to_nat N) blocks))).
   - rewrite concat_chunks_f; [reflexivity|lia|rewrite firstn_length; lia].
   - apply preprocess_ok. exact Hwf.
-  - rewrite (batch_loop_first (enc_file f) st pb Hpb N fuel (Z.to_nat N) blocks (data_start st) 0 []);
+  - rewrite (batch_loop_first (enc_file f) st lfix pb Hpb N fuel (Z.to_nat N) blocks (data_start st) 0 []);
       [replace (N - 0) with N by lia; reflexivity|lia|lia|lia|lia|apply blocks_at|reflexivity].
   - apply chunks_f_forall. apply Forall_firstn'. exact Hb.
   - apply chunks_f_nonempty; [|rewrite firstn_length; lia].
@@ -553,22 +613,58 @@ Proof.
   - exact Hsched.
 Qed.
 
-(* n_blocks larger than the number of blocks: the loop never ends, whatever the fuel *)
-Theorem arrays_beyond_never_terminates chk fuel names N : Z.of_nat (length blocks) < N ->
-  arrays_gen chk fuel (enc_file f) N pb names sched = ROutOfFuel.
+(* pinned loop, n_blocks larger than the number of blocks: the loop never ends, whatever the fuel *)
+Theorem arrays_beyond_never_terminates chk fuel names N : lfix = false -> Z.of_nat (length blocks) < N ->
+  arrays_gen chk lfix fuel (enc_file f) N pb names sched = ROutOfFuel.
 Proof.
-  intros HN. apply (arrays_loop_out_of_fuel chk fuel (enc_file f) N pb names sched st (preprocess_ok f Hwf)).
-  apply (batch_loop_beyond (enc_file f) st pb Hpb N fuel blocks (data_start st) 0 []);
+  clear Hsched. intros Hfix HN. apply (arrays_loop_out_of_fuel chk lfix fuel (enc_file f) N pb names sched st (preprocess_ok f Hwf)).
+  apply (batch_loop_beyond (enc_file f) st lfix pb Hpb N Hfix fuel blocks (data_start st) 0 []);
     [lia|lia|apply blocks_at|reflexivity].
 Qed.
 
-(* a well-formed file without any block (zero events): ak.concatenate([]) raises *)
-Theorem arrays_zero_blocks_raises chk fuel names : blocks = [] ->
-  arrays_gen chk fuel (enc_file f) (-1) pb names sched = RThrow RConcatEmpty.
+(* repaired loop, n_blocks larger than the number of blocks: the whole file (the empty array when there is no block) *)
+Theorem arrays_beyond_fixed chk fuel dets N : lfix = true -> Z.of_nat (length blocks) < N ->
+  (length blocks < fuel)%nat ->
+  arrays_gen chk lfix fuel (enc_file f) N pb (map Some dets) sched =
+  ROk (columnar (sel_of (eff_dets dets)) (file_events f)).
 Proof.
-  intros He. apply (arrays_no_batches chk fuel (enc_file f) (-1) pb names sched st (preprocess_ok f Hwf)).
-  clear Hsched. apply batch_loop_at_end; [|lia]. cbn [data_start data_end st]. unfold blocks in He |- *. rewrite He.
-  cbn [enc_blocks flat_map]. rewrite (@zlen_nil Z). lia.
+  intros Hfix HN Hf. pose proof blocks_wf as Hb.
+  assert (Hloop : batch_loop (enc_file f) st lfix fuel N pb (data_start st) 0 [] =
+                  ROk (map enc_blocks (chunks_f (length blocks) (Z.to_nat pb) blocks))).
+  { rewrite (batch_loop_beyond_fixed (enc_file f) st lfix pb Hpb N Hfix fuel (length blocks) blocks (data_start st) 0 []);
+      [reflexivity|lia|lia|exact Hf|lia|apply blocks_at|reflexivity]. }
+  assert (D : blocks = [] \/ blocks <> []) by (destruct blocks; [left; reflexivity|right; discriminate]).
+  destruct D as [Eb|Hne].
+  - subst lfix. rewrite Eb in Hloop. cbn [length chunks_f map] in Hloop.
+    rewrite (arrays_no_batches_fixed chk fuel (enc_file f) N pb dets sched st (preprocess_ok f Hwf) Hloop Hsched).
+    unfold file_events. fold blocks. rewrite Eb. reflexivity.
+  - rewrite (arrays_of_groups chk lfix fuel (enc_file f) N pb dets sched st (chunks_f (length blocks) (Z.to_nat pb) blocks)).
+    + rewrite concat_chunks_f by lia. reflexivity.
+    + apply preprocess_ok. exact Hwf.
+    + exact Hloop.
+    + apply chunks_f_forall. exact Hb.
+    + apply chunks_f_nonempty; [exact Hne|lia].
+    + exact Hsched.
+Qed.
+
+Lemma data_end_start_empty : blocks = [] -> data_start st = data_end st.
+Proof. intros He. cbn [data_start data_end st]. rewrite He. cbn [enc_blocks flat_map]. rewrite (@zlen_nil Z). lia. Qed.
+
+(* a well-formed file without any block (zero events): with the pinned loop ak.concatenate([]) raises *)
+Theorem arrays_zero_blocks_raises chk fuel names : lfix = false -> blocks = [] ->
+  arrays_gen chk lfix fuel (enc_file f) (-1) pb names sched = RThrow RConcatEmpty.
+Proof.
+  clear Hsched. intros Hfix He. subst lfix.
+  apply (arrays_no_batches chk fuel (enc_file f) (-1) pb names sched st (preprocess_ok f Hwf)).
+  apply batch_loop_at_end; [|lia]. apply data_end_start_empty. exact He.
+Qed.
+(* ... with the repaired loop the empty array is returned *)
+Theorem arrays_zero_blocks_fixed chk fuel dets : lfix = true -> blocks = [] ->
+  arrays_gen chk lfix fuel (enc_file f) (-1) pb (map Some dets) sched = ROk (columnar (sel_of (eff_dets dets)) []).
+Proof.
+  intros Hfix He. subst lfix.
+  apply (arrays_no_batches_fixed chk fuel (enc_file f) (-1) pb dets sched st (preprocess_ok f Hwf)); [|exact Hsched].
+  apply batch_loop_at_end; [|lia]. apply data_end_start_empty. exact He.
 Qed.
 End FileTheorems.
 
